@@ -7,6 +7,7 @@
 mod alloc;
 mod c06;
 mod c09;
+mod c10;
 mod c11;
 mod c12;
 mod c13;
@@ -38,6 +39,7 @@ fn main() {
     match prop {
         "C06" => c06::run(&mut out, thorough, seed),
         "C09" => c09::run(&mut out, thorough, seed),
+        "C10" => c10::run(&mut out, thorough, seed),
         "C11" => c11::run(&mut out, thorough, seed),
         "C12" => c12::run(&mut out, thorough, seed),
         "C13" => c13::run(&mut out, thorough, seed),
